@@ -7,6 +7,7 @@ Monitors: observation walk over the public API, SQL trace (transaction bracket),
 (write-set = which tables a case reached), structural audit of the SQLite file.
 """
 
+import os
 import random
 
 from vf import env, wnio, dbdump
@@ -35,6 +36,10 @@ def plan(tier, seed):
                     'frames': 'senses' if i % 11 == 5 else 'auto'})
     # a synset with more declared members than the rank that unlisted members get (127): the declared order must hold
     out.append({'seed': seed * 1000003 + 999961, 'lmfver': '1.1', 'batch': None, 'idstyle': 'prefixed', 'frames': 'auto', 'many_members': 150})
+    # databases whose file was created by another process that only read from it (and never committed anything itself)
+    for i in range(2 if tier == 'quick' else 20):
+        out.append({'seed': seed * 1000003 + 999900 + i, 'lmfver': doc.LMF_VERSIONS[i % 4], 'batch': None, 'idstyle': 'short', 'frames': 'auto',
+                    'created_by_reader': True})
     if tier == 'thorough':
         out.append({'seed': seed * 1000003 + 999983, 'lmfver': '1.3', 'batch': None, 'idstyle': 'prefixed',
                     'frames': 'auto', 'big': 2005})
@@ -75,7 +80,16 @@ def run_case(case, rec):
     mon.install()
     old_batch = getattr(wn._add, 'BATCH_SIZE', None)
     try:
-        with env.FreshDB() as fdb:
+        with env.FreshDB(init=not case.get('created_by_reader')) as fdb:
+            if case.get('created_by_reader'):
+                import subprocess
+                import sys
+                code = ('import wn; wn.config.data_directory = %r; print(len(wn.lexicons()), len(wn.words()))' % str(fdb.dir))
+                p_ = subprocess.run([sys.executable, '-c', code], capture_output=True, text=True, timeout=300,
+                                    env=dict(os.environ, PYTHONPATH=str(env.REPO)))
+                rec.event('created-by-reader')
+                if p_.returncode != 0 or p_.stdout.split() != ['0', '0']:
+                    rec.violation('reader-process', f'a process that only reads from a new data directory: rc {p_.returncode}, output {p_.stdout!r} {p_.stderr[-300:]}')
             if case.get('batch') and old_batch is not None:
                 wn._add.BATCH_SIZE = case['batch']
                 rec.event('batch.size.%d' % case['batch'])
